@@ -24,8 +24,10 @@ TRUSTED_BASE = [
     "payoffs are never numeric_limits<double>::lowest() (used by the code as a 'nothing found' marker)",
     "MOVE model = the code repaired by fixes/C13-move-ucve-unmentioned-zero.patch; extractDominated modelled by its "
     "meaning on exactly represented vectors (results compared as sets of value vectors); LS/MaxPlus/RILS search, "
-    "message passing and RNG are not modelled (any in-range action + evaluateGraph); UCVE has no model (oracle "
-    "only; its a+sqrt(b) comparison is the Coq-extracted sqrt_sum_le, proved exact in ProofsSqrt.v)",
+    "message passing and RNG are not modelled (any in-range action + evaluateGraph); UCVE: executable model of the repaired code "
+    "(value and, with the hook UCVE::verifBoundsObserver, the pruning bounds of every removal are compared), its "
+    "optimality is NOT proved; comparisons a+sqrt(b) use the Coq function sqrt_sum_le (proved exact, ProofsSqrt.v) "
+    "where the C++ uses doubles; extractDominated by meaning",
 ]
 ASSUMPTIONS = [
     "every agent has at least one action; rule keys are non-empty, strictly increasing, name existing agents; "
@@ -205,6 +207,64 @@ def gen_ucve_holes_components(rng):
     return "ucve %s %s 1 %s" % (L(A), logtA, fmt_rules(rules))
 
 
+def gen_ucve_sparse_pairs(rng):
+    """three independent rule sets (see gen_ucve_sparse_pairs1) over one action space, run on one UCVE object"""
+    first = gen_ucve_sparse_pairs1(rng, None)
+    toks = first.split()
+    n = int(toks[1]); A = [int(x) for x in toks[2:2 + n]]; logtA = toks[2 + n]
+    sets = [" ".join(toks[4 + n:])]
+    for _ in range(2):
+        t = gen_ucve_sparse_pairs1(rng, (A, logtA)).split()
+        sets.append(" ".join(t[4 + n:]))
+    return "ucve %s %s 3 %s" % (L(A), logtA, " ".join(sets))
+
+
+def gen_ucve_sparse_pairs1(rng, fixed):
+    """directed at the bounds taken from sparse factors still in the graph: two or more disjoint sparse
+    pair factors; in one every mentioned entry has a huge bonus and a very negative mean (the optimum avoids
+    it and takes the implicit (0,0)); in the others entries trade a low / negative mean against some bonus"""
+    import itertools
+    if fixed is None:
+        npairs = rng.choice([2, 2, 3])
+        n = 2 * npairs + rng.choice([0, 0, 1])
+        A = [2 if rng.random() < 0.8 else 3 for _ in range(n)]
+    else:
+        A = fixed[0]; n = len(A); npairs = n // 2
+    perm = list(range(n)); rng.shuffle(perm)
+    rules = []
+    huge = rng.randrange(npairs)
+    logtA = rng.choice(["1/2", "2", "2", "8"]) if fixed is None else fixed[1]
+    ldiv = {"1/2": 16, "2": 64, "8": 256}[logtA]                  # bonus = (j/8)^2 / (logtA/2) = j^2 / ldiv
+
+    def marginal():
+        # negative mean, bonus worth slightly more than the mean costs: better than the implicit (0,0)
+        # only as long as the rest of the graph adds little bonus
+        j = rng.randint(2, 12)
+        return "%d/8 %d/%d" % (-(j - rng.randint(1, min(j, 3))), j * j, ldiv)
+
+    for i in range(npairs):
+        ks = sorted(perm[2 * i: 2 * i + 2])
+        locs = list(itertools.product(*[range(A[x]) for x in ks]))
+        rng.shuffle(locs)
+        for vs in locs[:rng.randint(1, len(locs) - 1)]:          # sparse: at least one local action unmentioned
+            if i == huge:
+                rules.append((ks, list(vs), "%d %d" % (-rng.choice([5, 20, 100]), rng.choice([36, 64, 100, 400]))))
+            else:
+                r = rng.random()
+                if r < 0.65:
+                    rules.append((ks, list(vs), marginal()))
+                elif r < 0.8:
+                    rules.append((ks, list(vs), "%d/8 0" % rng.randint(-4, 2)))
+                else:
+                    rules.append((ks, list(vs), "%s %s" % (dy(rng, -8, 8, 8), dy(rng, 0, 16, 4))))
+    if n > 2 * npairs and rng.random() < 0.7:                        # a pendant agent on one of the pairs
+        ks = sorted([perm[-1], perm[rng.randrange(2 * npairs)]])
+        vs = [rng.randrange(A[x]) for x in ks]
+        rules.append((ks, vs, "%d/8 %d/4" % (-rng.randint(0, 8), rng.randint(0, 8))))
+    rng.shuffle(rules)
+    return "ucve %s %s 1 %s" % (L(A), logtA, fmt_rules(rules))
+
+
 def gen_case(rng, kind):
     if kind in ("move", "ucve"):
         A = gen_A(rng, maxn=5, maxa=3)
@@ -248,8 +308,10 @@ def gen_case(rng, kind):
         return gen_ucve_connected(rng)
     if kind == "ucve" and rng.random() < 0.35:
         return gen_ucve_mixed(rng)
-    if kind == "ucve" and rng.random() < 0.5:
+    if kind == "ucve" and rng.random() < 0.4:
         return gen_ucve_holes_components(rng)
+    if kind == "ucve" and rng.random() < 0.7:
+        return gen_ucve_sparse_pairs(rng)
     if kind == "ucve":
         logtA = rng.choice(["1/2", "1", "2", "4", "8", "25/2"])
         lo = -16 if rng.random() < 0.3 else 0
